@@ -89,7 +89,7 @@ def run(ctx):
     ctx.assume("slots are sampled (all boundaries +-3..60, powers of two, seeded random), not enumerated up to 2^40")
 
     # 1. exhaustive model check
-    max_slot = 200 if ctx.thorough else 60
+    max_slot = 200 if ctx.thorough else 40
     cfg = ctx.path("MC.cfg")
     src = open(os.path.join(vlib.SPEC, SPEC_DIR, "MCSlotTime.cfg")).read()
     open(cfg, "w").write(src.replace("MaxSlot = 60", "MaxSlot = %d" % max_slot))
@@ -123,7 +123,7 @@ def run(ctx):
 
     # 3. M3: the well-known networks -> trace spec (verdict)
     tr = ctx.path("trace.ndjson")
-    ctx.run_bin(binary, ["slot-trace", "--seed", ctx.seed, "--random", 1500 if ctx.thorough else 100, "--out", tr])
+    ctx.run_bin(binary, ["slot-trace", "--seed", ctx.seed, "--random", 1500 if ctx.thorough else 40, "--out", tr])
     events = vlib.read_ndjson(tr)
     nets = [e["name"] for e in events if e["ev"] == "net"]
     if sorted(nets) != ["mainnet", "preprod", "preview", "testnet"]:
@@ -138,8 +138,8 @@ def run(ctx):
         ctx.report(key, "call not allowed by SlotTime on network %s: %s" % (net["name"] if net else "?", json.dumps(ev)),
                    payload={"event": ev, "net": net})
 
-    # 4. design model (Strict): epoch is the quotient, the clock is the linear formula => DRIFT only
-    if len(rejected) < 8:
+    # 4. design model (Strict, thorough tier): epoch is the quotient, the clock is the linear formula => DRIFT only
+    if ctx.thorough and len(rejected) < 8:
         drift, _ = validate(ctx, "TraceSlotTimeStrict.cfg", clean, "strict", 3)
         for key, ev, net in drift:
             ctx.notes.append("DRIFT design model (Strict) rejects %s: %s" % (key, json.dumps(ev)))
